@@ -144,6 +144,26 @@ fn run_case(ctx: &Ctx, index: u64, rep: &mut Report) {
     let mut rng = ctx.rng(index);
     let opts = GenOpts { inputs: true, stops: true, kf_permille: 0, failure_permille: 100, ..GenOpts::default() };
     let g = prog::generate(&mut rng, &opts);
+    // one program in sixty is padded to 32 700-32 790 tokens (330 long PRINT lines at high line numbers that are never
+    // reached): limits on the size of a program, if any, are met by the edit
+    let padding: Vec<String> = if rng.chance(1, 60) {
+        let mut v = vec![];
+        let mut total = 0usize;
+        let target = 32_700 + rng.usize(90);
+        let mut n = 5_000_000u64;
+        while total < target {
+            let k = (target - total).min(99).max(3);
+            // PRINT 1;1;...: 1 + (2j - 1) tokens
+            let j = (k / 2).max(1);
+            v.push(format!("{} PRINT {}", n, vec!["1"; j].join(";")));
+            total += 2 * j;
+            n += 10;
+        }
+        rep.count("padded_programs");
+        v
+    } else {
+        vec![]
+    };
     // one program in eight consists of a single line: the edit that deletes it empties the program
     let g = if rng.chance(1, 8) { one_line_program(&mut rng) } else { g };
     let seed = rng.below(1 << 33);
@@ -152,6 +172,9 @@ fn run_case(ctx: &Ctx, index: u64, rep: &mut Report) {
     sess.call(Op::Randomize(seed));
     if exec::load_program(&mut sess, &g.prog).is_err() {
         return;
+    }
+    for l in &padding {
+        sess.call(Op::Line(l.clone()));
     }
     let mode = rng.below(4);
     let k = 1 + rng.below(40);
@@ -265,6 +288,13 @@ fn run_case(ctx: &Ctx, index: u64, rep: &mut Report) {
             ("failed-edit-existing", format!("{} PRINT \"oops", other_line), None),
             ("failed-edit-new", format!("{} é", new_line), None),
         ];
+        if !padding.is_empty() {
+            // a much longer replacement for an existing line of a program that is already very large
+            let long = format!("{} PRINT {}", other_line, vec!["2"; 120].join(";"));
+            for _ in 0..6 {
+                v.push(("replace-line-with-much-longer-one", long.clone(), None));
+            }
+        }
         if let Some(a) = s0.arrays.first() {
             // the text of an entered line is only text: naming an existing array in a DIM does not touch the array
             v.push(("add-line-with-DIM-of-existing-array", format!("{} DIM {}(5)", new_line, a.name), None));
@@ -290,7 +320,7 @@ fn run_case(ctx: &Ctx, index: u64, rep: &mut Report) {
         v
     };
     let (edit_kind, edit_text, deleted) = choices[rng.usize(choices.len())].clone();
-    let rejected = edit_kind.starts_with("failed");
+    let expected_rejection = edit_kind.starts_with("failed");
     let case = || json!({"program": exec::program_json(&g.prog), "replies": g.replies, "suspension": suspension, "turns_before": turns,
         "edit": edit_text, "edit_kind": edit_kind, "state_before_edit": refs_view(&s0)});
     let res = sess.call(Op::Line(edit_text.clone())).res.clone();
@@ -311,10 +341,25 @@ fn run_case(ctx: &Ctx, index: u64, rep: &mut Report) {
             rep.count(&format!("had.{}", name));
         }
     }
+    if expected_rejection && res.is_ok() {
+        ctx.violation(rep, "C11", "bad-edit-accepted", index, format!("untokenizable edit {:?} was accepted", edit_text), case());
+        return;
+    }
+    // an edit the interpreter refuses, for whatever reason (it may have reasons this harness does not know, a size
+    // limit for instance), must change nothing: neither the program nor the runtime state
+    let rejected = !res.is_ok();
+    if rejected && !expected_rejection {
+        rep.count("edits_refused_unexpectedly");
+    }
     if rejected {
-        if res.is_ok() {
-            ctx.violation(rep, "C11", "bad-edit-accepted", index, format!("untokenizable edit {:?} was accepted", edit_text), case());
-            return;
+        {
+            let listing_now = replay(&{ let mut h = history.clone(); h.push(Op::Line(edit_text.clone())); h }).run_line("LIST", 5).printed();
+            let listing_before = replay(&history).run_line("LIST", 5).printed();
+            if listing_now != listing_before {
+                ctx.violation(rep, "C11", "refused-edit-changes-program", index,
+                    format!("the edit {:?} was refused ({}), yet the program listing changed", edit_text, res.to_json()), case());
+                return;
+            }
         }
         if refs_view(&s1) != refs_view(&s0) || data_view(&s1) != data_view(&s0) || s1.map_lines != s0.map_lines {
             ctx.violation(rep, "C11", "rejected-edit-invalidates", index,
@@ -336,10 +381,7 @@ fn run_case(ctx: &Ctx, index: u64, rep: &mut Report) {
         flush_trips(ctx, rep, index, &with_edit, case);
         return;
     }
-    if !res.is_ok() {
-        ctx.violation(rep, "C11", "edit-failed", index, format!("edit {:?} failed: {}", edit_text, res.to_json()), case());
-        return;
-    }
+
     // ---- snapshot oracle
     let clean = s1.breakpoint.is_none() && s1.stack.is_empty() && s1.loops.is_empty() && s1.functions.is_empty()
         && s1.data_cursor.is_none() && s1.location.line.is_none();
